@@ -105,6 +105,7 @@ def parseEv (line : String) : Option Ev :=
   | ["tcleanup"] => some .tcleanup
   | "mt" :: kind :: "ok" :: rest => some (.mt kind true (String.intercalate " " rest))
   | "mt" :: kind :: "bad" :: rest => some (.mt kind false (String.intercalate " " rest))
+  | "race" :: rest => some (.race (String.intercalate " " rest))
   | "skip" :: rest => some (.skip (String.intercalate " " rest))
   | _ => none
 
